@@ -90,7 +90,7 @@ impl GhostQueue {
                 self.wf(), self.capacity == capacity, capacity > 0,
                 exists|k: int| 0 <= k <= old(self).queue@.len() && self.queue@ == #[trigger] old(self).queue@.subrange(k, old(self).queue@.len() as int),
             decreases self.queue@.len(),
-//@before /while self\.weight > self\.capacity/
+//@before /while self\.weight/
         proof { assert(self.queue@ =~= old(self).queue@.subrange(0, old(self).queue@.len() as int)); }
 //@before /self\.pop\(\);/
             let ghost k0 = choose|k: int| 0 <= k <= old(self).queue@.len() && self.queue@ == #[trigger] old(self).queue@.subrange(k, old(self).queue@.len() as int);
@@ -120,7 +120,7 @@ impl GhostQueue {
                 forall|h: u64| self.counts@.contains(h) ==> old(self).counts@.contains(h),
                 self.weight <= old(self).weight,
             decreases self.queue@.len(),
-//@before /while self\.weight \+ weight > self\.capacity/
+//@before /while self\.weight/
         proof { assert(dropped_oldest(old(self).queue@, 0, self.queue@, weight, old(self).capacity)) by { assert(old(self).queue@.subrange(0, old(self).queue@.len() as int) =~= old(self).queue@); } }
 //@before /self\.pop\(\);/
             let ghost k0 = choose|k: int| dropped_oldest(old(self).queue@, k, self.queue@, weight, old(self).capacity);
